@@ -525,8 +525,11 @@ impl ClusterActor {
                             break 'iter;
                         }
 
-                        // Check if event is beyond effective end sequence
-                        if event.partition_sequence > effective_end_sequence {
+                        // Check if event is beyond effective end sequence (inclusive) or not
+                        // below the watermark (exclusive: only sequences < watermark are confirmed)
+                        if event.partition_sequence > effective_end_sequence
+                            || event.partition_sequence >= watermark
+                        {
                             break 'iter;
                         }
 
